@@ -945,7 +945,7 @@ impl StoryState {
         self.set_current_pointer(new_pointer);
 
         if incrementing_turn_index {
-            self.current_turn_index += 1;
+            self.current_turn_index = self.current_turn_index.wrapping_add(1);
         }
 
         Ok(())
